@@ -68,6 +68,10 @@ def gen_case(seed, tier, index=0):
             files.append({"path": f"LICENSES/{lic}.txt", "content": SENTINEL})
     files.append({"path": "srclic/LicenseRef-Custom.txt", "content": "custom licence text from the source directory\n"})
     files.append({"path": "srclic/LicenseRef-Custom.txt.license", "content": "SPDX-FileCopyrightText: 2020 J\nSPDX-License-Identifier: CC0-1.0\n"})
+    # neighbours in the source directory whose names extend the identifier
+    files.append({"path": "srclic/LicenseRef-Custom.v2.txt", "content": "text of ANOTHER licence, LicenseRef-Custom.v2\n"})
+    files.append({"path": "srclic/LicenseRef-Custom.md", "content": "# not the licence text\n"})
+    files.append({"path": "srclic/LicenseRef-Other.1.txt", "content": "text of LicenseRef-Other.1 from the source directory\n"})
     git = rng.chance(0.4)
     if git:
         world["git"] = {"commit": True}
@@ -109,7 +113,7 @@ def gen_case(seed, tier, index=0):
                 src = rng.pick(["srclic", "srclic/LicenseRef-Custom.txt", "src"])
                 up = "" if (cwd == "." ) else "../"
                 argv = root_opt + ["download", "--source", up + src] + ids
-            st = {"argv": argv, "cwd": cwd, "net": net_for(ids), "pool": pool}
+            st = {"argv": argv, "cwd": cwd, "net": net_for(ids), "pool": pool, "readdir_key": rng.randrange(1 << 30)}
             steps.append(st)
             earlier.append(st)
         elif k == "all":
